@@ -12,6 +12,7 @@ mod cram;
 mod escaping;
 mod rules;
 mod grammar;
+mod generate;
 
 use common::*;
 use std::sync::Mutex;
@@ -51,6 +52,7 @@ fn main() {
             "C19" => render::replay(&prop, &r),
             "C07" => cram::replay(&prop, &r),
             "C08" => grammar::replay(&prop, &r),
+            "C09" | "C10" => generate::replay(&prop, &r),
             "C11" => escaping::replay(&prop, &r),
             "C04" => escaping::replay(&prop, &r) && rules::replay(&prop, &r),
             _ => { eprintln!("no replay for {prop}"); false }
@@ -71,6 +73,7 @@ fn main() {
         "C19" => render::run(&ctx, &prop),
         "C07" => cram::run(&ctx, &prop),
         "C08" => grammar::run(&ctx, &prop),
+        "C09" | "C10" => generate::run(&ctx, &prop),
         "C11" => escaping::run(&ctx, &prop),
         "C04" => {
             // string kinds (equal, no-eol, escaped) and pattern kinds (glob, cram glob, regex)
